@@ -98,6 +98,12 @@ class Gen:
         if c == "leaf":
             return self.leaf(ty, scope)
         if c == "if":
+            if r.random() < 0.35:
+                # else-if chain of 2-3 conditions
+                tail = self.expr(ty, scope, d)
+                for _ in range(r.choice([1, 2])):
+                    tail = E("if", ty, (self.cond(scope, d), self.expr(ty, scope, max(d - 1, 0)), tail), "chain")
+                return E("if", ty, (self.cond(scope, d), self.expr(ty, scope, d), tail))
             return E("if", ty, (self.cond(scope, d), self.expr(ty, scope, d), self.expr(ty, scope, d)))
         if c == "let":
             t2 = r.choice([INT, BOOL, t_adt("Shape"), t_opt(INT), t_list(INT)])
@@ -382,6 +388,40 @@ def probe_functions(width: int):
     # an unused let is erased by the type checker and never evaluated; an unused expect is kept
     fn("let_unused", ib, INT, E("let", INT, (E("bin", INT, (a, b), "/"), a), "t"))
     fn("expect_unused", [("xs", t_list(INT)), ("a", INT)], INT, E("expect_pat", INT, (var("xs", t_list(INT)), a), PList([PVar("h0")], PDiscard())))
+    # if / else if chains: conditions are tested in source order
+    def chain(*parts):
+        *pairs, last = parts
+        e = last
+        for cnd, val in reversed([(pairs[i], pairs[i + 1]) for i in range(0, len(pairs), 2)]):
+            e = E("if", INT, (cnd, val, e), "chain" if e is not last or False else None)
+        return e
+
+    def ifchain(conds_vals, last):
+        e = last
+        first = True
+        for cnd, val in reversed(conds_vals):
+            e = E("if", INT, (cnd, val, e), None)
+        # mark every nested link (all but the outermost) as a chain link
+        def mark(x, outer=True):
+            if x.op == "if":
+                c_, a_, b_ = x.args
+                nb = mark(b_, False) if b_.op == "if" else b_
+                return E("if", x.ty, (c_, a_, nb), None if outer else "chain")
+            return x
+        return mark(e)
+    gt = lambda k: E("bin", BOOL, (a, lit_int(k)), ">")
+    fn("if_chain_grades", [("a", INT)], INT, ifchain([(gt(90), lit_int(1)), (gt(80), lit_int(2)), (gt(70), lit_int(3))], lit_int(4)))
+    fn("if_chain_guard", ib, INT, ifchain([(E("bin", BOOL, (b, lit_int(0)), "=="), lit_int(-1)), (E("bin", BOOL, (E("bin", INT, (a, b), "/"), lit_int(2)), ">"), lit_int(1))], lit_int(0)))
+    fn("if_chain_bool", [("p", BOOL), ("q", BOOL), ("a", INT)], INT, ifchain([(p, a), (q, E("neg", INT, (a,))), (E("bin", BOOL, (a, lit_int(0)), "<"), lit_int(7))], lit_int(9)))
+    # expect on list patterns: every position counts towards the required length, named or discarded
+    xl = var("xs", t_list(INT))
+    fn("expect_list_disc_tail", [("xs", t_list(INT))], INT, E("expect_pat", INT, (xl, var("h0", INT)), PList([PVar("h0"), PDiscard()], PDiscard())))
+    fn("expect_list_3disc_tail", [("xs", t_list(INT)), ("a", INT)], INT, E("expect_pat", INT, (xl, a), PList([PDiscard(), PDiscard(), PDiscard()], PDiscard())))
+    fn("expect_list_disc_exact", [("xs", t_list(INT))], INT, E("expect_pat", INT, (xl, var("h0", INT)), PList([PVar("h0"), PDiscard()], None)))
+    fn("expect_list_mid_disc", [("xs", t_list(INT))], INT, E("expect_pat", INT, (xl, E("bin", INT, (var("h0", INT), var("h2", INT)), "-")), PList([PVar("h0"), PDiscard(), PVar("h2")], PDiscard())))
+    fn("expect_list_tail_var", [("xs", t_list(INT))], INT, E("expect_pat", INT, (xl, E("call", INT, (var("rest", t_list(INT)),), "count")), PList([PDiscard(), PDiscard()], PVar("rest"))))
+    fn("when_list_disc_tail", [("xs", t_list(INT))], INT, E("when", INT, (xl,), [
+        (PList([PVar("h0"), PDiscard()], PDiscard()), var("h0", INT)), (PList([PDiscard()], None), lit_int(-1)), (PDiscard(), lit_int(-2))]))
     xs_ = var("xs", t_list(INT))
     fn("when_list_tails_desc", [("xs", t_list(INT))], INT, E("when", INT, (xs_,), [
         (PList([PDiscard(), PInt(0)], PDiscard()), lit_int(1)), (PList([PDiscard()], PDiscard()), lit_int(3)), (PDiscard(), lit_int(4))]))
